@@ -446,13 +446,16 @@ def rule_ctor(ctx):
     p = ctx.p
     classes = concrete_message_classes(p) + concrete_part_classes(p)
     n = 0
-    for ci in classes:
-        kw = {k: (v if k == "children" else Term("param", f"arg.{k}", pytype="str")) for k, v in full_kwargs(p, ci).items()}
+    # arguments are text when a message is parsed, and any value (numbers, decimals) when it is built by a program:
+    # both are explored, the second only matters where the constructor's treatment depends on the argument's type
+    for ci, typed in [(c_, t_) for c_ in classes for t_ in (True, False)]:
+        kw = {k: (v if k == "children" else (Term("param", f"arg.{k}", pytype="str") if typed else Term("param", f"arg.{k}", pytype="number"))) for k, v in full_kwargs(p, ci).items()}
         names = [k for k in kw if k != "children"]
         try:
             res = abstract_construct(p, ci, kw, inline_prefixes=("indi.message.", "indi.message.checks."))
         except Undecided as u:
-            ctx.undecided("C20.CTOR", ci.short, str(u), ci=ci)
+            if typed:
+                ctx.undecided("C20.CTOR", ci.short, str(u), ci=ci)
             continue
         init = ci.find_method("__init__")
         bad = False
@@ -478,8 +481,9 @@ def rule_ctor(ctx):
                         ctx.violated("C20.CTOR", f"{(init or f).short}[{ci.name}]", f"constructor argument '{k}' of {ci.name} does not reach the compared rendering on a path on which construction succeeds (assumed: {conds}): two {ci.name} built with different '{k}' compare equal", fi=init or f, text=f"{ci.name}.{k}", witness=f"{ci.name}({k}=x) == {ci.name}({k}=y) under {conds}")
                         bad = True
         if okpaths == 0:
-            ctx.undecided("C20.CTOR", ci.short, "no successful construction path explored", ci=ci)
-        elif not bad:
+            if typed:
+                ctx.undecided("C20.CTOR", ci.short, "no successful construction path explored", ci=ci)
+        elif not bad and typed:
             ctx.holds("C20.CTOR", ci.short, f"all {len(names)} named arguments reach the rendering on {okpaths} construction path(s)", ci=ci)
     ctx.floor("C20.CTOR", "argument x path evaluations", n, 100)
 
